@@ -63,11 +63,49 @@ def docs_model(docs):
                        extra_modules={"MC_T2DataFile.tla": mod})
 
 
-def wf(kinds):
+def wf(kinds, secs=None):
     def before(a, b):
         return b not in kinds or (a in kinds and kinds.index(a) < kinds.index(b))
-    return before("MULTI", "DIFFU") and before("ROCKS", "ELEME") and before("ELEME", "CONNE") and \
+    n = dict((s["kind"], s.get("n", 0)) for s in (secs or []))
+    if "SIMUL" in kinds and any(k in kinds and kinds.index(k) < kinds.index("SIMUL") for k in ("PARAM", "MULTI")):
+        return False
+    if n.get("ELEME", 1) > 0 and not before("ROCKS", "ELEME"):
+        return False
+    if n.get("CONNE", 1) > 0 and not before("ELEME", "CONNE"):
+        return False
+    return before("MULTI", "DIFFU") and \
         all(before("ELEME", k) and before("CONNE", k) for k in ("SHORT", "FOFT", "COFT", "GOFT")) and before("GENER", "SHORT")
+
+
+OPTIONAL = [
+    {"kind": "SIMUL"}, {"kind": "ROCKS", "nads": [0, 2, 1]}, {"kind": "ROCKS", "nads": [2]}, {"kind": "MOMOP"}, {"kind": "START"},
+    {"kind": "NOVER"}, {"kind": "RPCAP"}, {"kind": "MULTI", "ncomp": 2}, {"kind": "LINEQ"}, {"kind": "SOLVR"}, {"kind": "TIMES", "n": 8},
+    {"kind": "TIMES", "n": 9}, {"kind": "SELEC", "n": 2}, {"kind": "MESHM", "n": 3}, {"kind": "MESHM", "n": 4}, {"kind": "MESHM", "n": 5},
+    {"kind": "GENER", "gens": [{"ltab": 0, "delv": False, "enth": False}, {"ltab": 4, "delv": False, "enth": True},
+                               {"ltab": 5, "delv": False, "enth": False}, {"ltab": 3, "delv": True, "enth": False},
+                               {"ltab": 12, "delv": False, "enth": True}, {"ltab": 1, "delv": False, "enth": False}]},
+    {"kind": "INDOM", "n": 1}]
+PARAMS = [{"kind": "PARAM", "nts": 0, "ninc": 0}, {"kind": "PARAM", "nts": 2, "ninc": 4}, {"kind": "PARAM", "nts": 1, "ninc": 5},
+          {"kind": "PARAM", "nts": 0, "ninc": 12}]
+
+
+def small_docs(rng, limit):
+    """Every legal order of the three sections a data object always has (PARAM, ELEME, CONNE) plus one optional
+    section (two for MULTI+DIFFU), x PARAM shapes x end keyword."""
+    import itertools
+    docs = []
+    extras = [[o] for o in OPTIONAL] + [[{"kind": "MULTI", "ncomp": 2}, {"kind": "DIFFU", "n": 2}], []]
+    for ex in extras:
+        for p in PARAMS:
+            base = [p, {"kind": "ELEME", "n": 0}, {"kind": "CONNE", "n": 0}] + ex
+            if any(s["kind"] in ("ROCKS",) for s in ex):
+                base[1], base[2] = {"kind": "ELEME", "n": 3}, {"kind": "CONNE", "n": 2}
+            for perm in itertools.permutations(base):
+                kinds = [s["kind"] for s in perm]
+                if wf(kinds, perm):
+                    docs.append({"secs": list(perm), "endkw": "ENDCY" if len(docs) % 2 else "ENDFI"})
+    rng.shuffle(docs)
+    return docs[:limit]
 
 
 def random_full_doc(rng, autough2):
@@ -85,16 +123,14 @@ def random_full_doc(rng, autough2):
     if shapes["SHORT"]["b"] + shapes["SHORT"]["c"] + shapes["SHORT"]["g"] == 0:
         shapes["SHORT"]["b"] = 1
     shapes["CONNE"]["n"] = min(shapes["CONNE"]["n"], shapes["ELEME"]["n"] - 1)
-    kinds = [k for k in CANON_ORDER if (k != "SIMUL" or autough2) and rng.random() < 0.75]
+    kinds = [k for k in CANON_ORDER if (k != "SIMUL" or autough2) and (rng.random() < 0.75 or k in ("PARAM", "ELEME", "CONNE"))]
     if "DIFFU" in kinds and "MULTI" not in kinds:
         kinds.remove("DIFFU")
     for k in ("SHORT", "FOFT", "COFT", "GOFT", "INCON"):
-        if k in kinds and not ("ELEME" in kinds and "CONNE" in kinds and "ROCKS" in kinds):
+        if k in kinds and "ROCKS" not in kinds:
             kinds.remove(k)
-    if "ELEME" in kinds and "ROCKS" not in kinds:
-        kinds = [k for k in kinds if k not in ("ELEME", "CONNE")]
-    if "CONNE" in kinds and "ELEME" not in kinds:
-        kinds.remove("CONNE")
+    if "ROCKS" not in kinds:
+        shapes["ELEME"]["n"], shapes["CONNE"]["n"] = 0, 0
     if "SHORT" in kinds and shapes["SHORT"]["g"] > 0 and "GENER" not in kinds:
         shapes["SHORT"]["g"] = 0
         shapes["SHORT"]["b"] = max(1, shapes["SHORT"]["b"])
@@ -112,7 +148,7 @@ def random_full_doc(rng, autough2):
             tail = perm[len(head):]
             rng.shuffle(tail)
             perm = head + tail
-        if wf(perm):
+        if wf(perm, [dict(kind=k, **shapes.get(k, {})) for k in perm]):
             kinds = perm
             break
     return {"secs": [dict(kind=k, **shapes.get(k, {})) for k in kinds], "endkw": rng.choice(["ENDCY", "ENDFI"])}
@@ -179,7 +215,7 @@ def cycle(rep, tracer, work, dat, doc, spec_stream, key, det, mesh=None, xp=None
             rep.violation(key + ":content", "P1_same_content_after_read", det)
             return
     if strip_trailing(files[0]) != strip_trailing(files[1]):
-        det["difference"] = first_line_diff(files[0], files[1])
+        det["difference"] = first_line_diff(files[0], files[1], True)
         rep.violation(key + ":second-write", "P2_second_write_reproduces_first", det)
         return
     if files[1] != files[2]:
@@ -195,8 +231,10 @@ def cycle(rep, tracer, work, dat, doc, spec_stream, key, det, mesh=None, xp=None
                         % (k, got[k] if k < len(got) else None, exp[k] if k < len(exp) else None, key))
 
 
-def first_line_diff(a, b):
+def first_line_diff(a, b, stripped=False):
     la, lb = a.split(b"\n"), b.split(b"\n")
+    if stripped:
+        la, lb = [x.rstrip() for x in la], [x.rstrip() for x in lb]
     for i, (x, y) in enumerate(zip(la, lb)):
         if x != y:
             return "line %d: %r vs %r" % (i + 1, x[:90], y[:90])
@@ -223,13 +261,13 @@ def run(tier):
         if r.violated:
             raise tlc.MachineryError("T2DataFile violates %s: %s" % (r.violated, "".join(r.trace[:1])[:600]))
         tracer.install()
-        # ---- S2C (a): every document of <= 2 sections
-        re2 = enum_model(2, "fixed", export=True)
-        rep.add_tlc("T2DataFile <=2 sections (export of documents with their specified record streams)", re2)
-        docs = [(e["doc"], e["file"]) for e in re2.emitted]
-        if quick and len(docs) > 350:
-            rng.shuffle(docs)
-            docs = docs[:350]
+        # ---- S2C (a): every legal order of the always-present sections plus one optional section
+        small = small_docs(rng, 300 if quick else 100000)
+        rs = docs_model(small)
+        rep.add_tlc("T2DataFile on %d small documents (PARAM+ELEME+CONNE + one optional section, every legal order)" % len(small), rs)
+        if rs.violated:
+            raise tlc.MachineryError("T2DataFile violates %s on a small document: %s" % (rs.violated, "".join(rs.trace[:1])[:800]))
+        docs = [(e["doc"], e["file"]) for e in rs.emitted]
         # ---- S2C (b): full-size documents composed by the harness, streams specified by TLC
         full = [random_full_doc(rng, autough2=(i % 2 == 0)) for i in range(60 if quick else 600)]
         rf = docs_model(full)
@@ -303,13 +341,15 @@ def run(tier):
             nship += 1
             rep.case(("shipped", rel))
             binm = bool(mesh)
-            diff = t2dbuild.first_difference(t2dbuild.canon(a, binm), t2dbuild.canon(b, binm)) or \
+            # the shipped file may hold more digits than the writer's formats carry: original vs re-read to the
+            # coarsest field (10.3e: four significant digits), re-read vs re-re-read exactly
+            diff = t2dbuild.first_difference(t2dbuild.canon(a, binm), t2dbuild.canon(b, binm), rtol=1.0e-3) or \
                 t2dbuild.first_difference(t2dbuild.canon(b, binm), t2dbuild.canon(c, binm))
             if diff:
                 det["difference"] = diff
                 rep.violation("shipped:%s:content" % rel, "P1_same_content_after_read", det)
             elif strip_trailing(open(p1, "rb").read()) != strip_trailing(open(p2, "rb").read()):
-                det["difference"] = first_line_diff(open(p1, "rb").read(), open(p2, "rb").read())
+                det["difference"] = first_line_diff(open(p1, "rb").read(), open(p2, "rb").read(), True)
                 rep.violation("shipped:%s:second-write" % rel, "P2_second_write_reproduces_first", det)
             elif open(p2, "rb").read() != open(p3, "rb").read():
                 rep.violation("shipped:%s:third-write" % rel, "P3_further_cycles_byte_identical", det)
